@@ -77,7 +77,7 @@ class P(ServeProp):
         except Exception as e:
             notes.append("campaign: fresh-server references unavailable (%s)" % e)
             fresh = [None] * len(reqs)
-        compared, samples = 0, []
+        compared, samples, aborted = 0, [], 0
         for rd in range(rounds):
             N = rnd.choice([1, 2, 4, 8, 16])
             try:
@@ -121,6 +121,41 @@ class P(ServeProp):
                                                "serial": (serial[picks[i]] or b"")[:300].decode("latin-1"), "concurrent": (got or b"")[:300].decode("latin-1")}))
                     if len(samples) < 3:
                         samples.append({"threads": N, "in_flight": k, "requests": [reqs[p][:40].decode("latin-1") for p in picks[:5]]})
+                # other clients that abort: a connection opened before a burst of connections that send a request and reset at once (some
+                # are reset while still in the accept queue) must still receive its own serial answer
+                for storm in range(1 if tier == "quick" else 3):
+                    pick = rnd.randrange(len(reqs))
+                    try:
+                        v = s.conn(10.0)
+                    except OSError:
+                        v = None
+                    def abort_burst():
+                        for _ in range(60):
+                            try:
+                                c = s.conn(2.0); c.sendall(reqs[0]); netprobe.rst_close(c)
+                            except OSError:
+                                pass
+                    th = [threading.Thread(target=abort_burst) for _ in range(8)]
+                    [t.start() for t in th]; [t.join() for t in th]
+                    aborted += 480
+                    got = None
+                    if v is not None:
+                        try:
+                            v.sendall(reqs[pick]); got = canon_resp(netprobe.recv_all(v, 10.0)); v.close()
+                        except OSError:
+                            got = None
+                    compared += 1
+                    if got != serial[pick]:
+                        again = None
+                        try:
+                            again = canon_resp(s.request(reqs[pick]))
+                        except Exception:
+                            pass
+                        if not s.alive() or again != serial[pick] or (got is not None and got != b""):
+                            fails.append(("a connection opened before a burst of aborted connections did not receive its serial answer (-t=%d)" % N, "response-lost-among-aborted-connections", None,
+                                          {"request": reqs[pick][:200].decode("latin-1"), "threads": N, "aborted_connections": 480, "server_alive_afterwards": s.alive(),
+                                           "serial": (serial[pick] or b"")[:300].decode("latin-1"), "received": (got or b"")[:300].decode("latin-1")}))
+                            break
             finally:
                 s.stop()
-        return {"failures": fails, "coverage": {"campaign": "real binary on loopback", "concurrent_responses_compared": compared, "waves": samples}}
+        return {"failures": fails, "coverage": {"campaign": "real binary on loopback", "concurrent_responses_compared": compared, "aborted_connections_in_bursts": aborted, "waves": samples}}
